@@ -11,7 +11,7 @@ RULE = ("1..4 TPDOs with generated mappings (1..8 objects of 1/2/3/4 bytes, <= 8
         "histories of value changes through CODictWr*/SDO, explicit triggers (PDO number, object), received SYNCs, ticks, NMT changes "
         "(OP->PREOP->OP round trips, STOP, reset communication), event-time writes and COB-ID invalidate/re-validate while OPERATIONAL; the "
         "(tick, identifier, dlc, data) TPDO emissions of every step are compared with a reference model in ticks, plus a systematic sweep of "
-        "(inhibit, event, trigger offset) in {0..6}^3 ticks; non-trivial = history with >= 1 deferred (inhibited) transmission, event "
+        "(inhibit, event, trigger offset) in {0..6}^3 x 10 ticks (every relative order and coincidence of trigger, inhibit end and event expiry); non-trivial = history with >= 1 deferred (inhibited) transmission, event "
         "expiry or n-th-SYNC transmission; distinct by script")
 ASSUMPTIONS = ["times are whole numbers of ticks (10 kHz timer: 100 us = 1 tick)", "first event-timer expiry after activation accepted in [E, E+CO_TPDO_N-1]",
                "an object is mapped at most once per TPDO; RTR and transmission types 0, 241..253 are not generated",
@@ -243,7 +243,7 @@ def run_history(res, exe, rng, first, sweep=None):
         ops = []
         if sweep is not None:
             inh, ev, off = sweep
-            ops = [("nmt", 1), ("tick", 1), ("trig", 0), ("tick", off), ("wrchange", (0x2100, 0)), ("tick", 1), ("wrchange", (0x2100, 0)), ("tick", 30), ("trig", 0), ("tick", 45)]
+            ops = [("nmt", 1), ("tick", 1), ("trig", 0), ("tick", off), ("wrchange", (0x2100, 0)), ("tick", 1), ("wrchange", (0x2100, 0)), ("tick", 150), ("trig", 0), ("tick", 200)]
             nsteps = len(ops)
         else:
             ops = None
@@ -417,7 +417,7 @@ def work(item, ctx):
         for ev in range(0, 7):
             for off in range(0, 7):
                 rng = random.Random(F.seed_for(ctx["seed"], "C12s", inh, ev, off))
-                run_history(res, exe, rng, False, sweep=(inh * 10 if False else inh, ev, off))
+                run_history(res, exe, rng, False, sweep=(inh * 10, ev, off * 10 + (inh + ev + off) % 3 - 1 if off else 0))
                 res.states.add((inh, ev, off))
     else:
         run_known_witness(res, exe)
